@@ -1,9 +1,27 @@
 #!/bin/bash
 # Build the framework from files on disk only (offline). Run once after a fresh restore.
+# Every ./check rebuilds what it needs anyway (no-op when nothing changed); this just pays the
+# cold build once: harness (release + debug-assertions), sequential and alternative-backend
+# builds of the harness (C09, C11), the downstream crate and the C14 binary (default + sequential).
 set -e
 cd "$(dirname "$0")"
 export CARGO_NET_OFFLINE=true
-( cd harness && cargo build --offline --release --bin mvv && cargo build --offline --profile dbg --bin mvv )
+ROOT="$(pwd)"
+b() { # crate variant profile args...
+  local crate="$1" variant="$2" prof="$3"; shift 3
+  ( cd "$ROOT/$crate" && cargo build --offline --profile "$prof" --target-dir "$ROOT/target/$variant" "$@" ) 2>&1 | tail -n 2
+}
+b harness harness release --bin mvv
+b harness harness dbg --bin mvv
 ./target/harness/release/mvv selftest x
-for s in scripts/pre-*.sh; do [ -x "$s" ] && "$s" quick; done
+b harness seq release --bin mvv --no-default-features --features ibig &
+b harness dashu release --bin mvv --no-default-features --features par,dashu &
+wait
+b harness malachite release --bin mvv --no-default-features --features par,malachite &
+b harness num_bigint release --bin mvv --no-default-features --features par,num_bigint &
+wait
+b downstream downstream release
+b c14 c14 release &
+b c14 c14-seq release --no-default-features --features ibig &
+wait
 echo "setup done"
